@@ -268,6 +268,9 @@ def run():
           "def simpleIdentifierCharRanges : List (UInt8 × UInt8) := " + lean_ranges(simple), "",
           "/-- plain `char` is a signed type on the build target -/",
           "def charIsSigned : Bool := %s" % ("true" if signed else "false"), "",
+          "/-- declared return types of `Lexer::peekNextChar()` / `Lexer::getNextChar()` -/",
+          "def peekReturnType : String := %s" % lean_str(prt),
+          "def getReturnType : String := %s" % lean_str(grt), "",
           "/-- `int Lexer::peekNextChar()` returns a value of this type converted to `int` -/",
           "def peekWidenedType : String := %s" % lean_str(pty),
           "def peekSignExtends : Bool := %s" % ("true" if sext(pty) else "false"), "",
